@@ -5,7 +5,7 @@
 //
 // usage: grid_run <cases.ndjson> <observed.ndjson> [first line to execute (0-based), append mode]
 // exit 0 = all cases executed; exit 88 = the library crashed in the case whose id is in the last
-// line of <observed.ndjson> ({"id":..,"crash":signal}); the caller restarts after it.
+// line of <observed.ndjson> ({"id":..,"crash":signal,"line":n}); the caller restarts at line n+1.
 #include "vjson.hpp"
 #include "Basic/Grid.hpp"
 #include "Db/Db.hpp"
@@ -23,11 +23,11 @@
 using vj::Value;
 
 static int g_outfd = -1;
-static long long g_curid = -1;
+static long long g_curid = -1, g_curline = -1;
 static void onCrash(int sig)
 {
   char buf[96];
-  int n = snprintf(buf, sizeof buf, "{\"id\":%lld,\"crash\":%d}\n", g_curid, sig);
+  int n = snprintf(buf, sizeof buf, "{\"id\":%lld,\"crash\":%d,\"line\":%lld}\n", g_curid, sig, g_curline);
   if (g_outfd >= 0) { ssize_t w = write(g_outfd, buf, n); (void)w; }
   _exit(88);
 }
@@ -492,6 +492,7 @@ int main(int argc, char** argv)
     if (lineno < start) continue;
     if (line.empty()) continue;
     Value c = vj::parse(line);
+    g_curline = lineno;
     g_curid = (long long)c.at("id").d();
     Value o = Value::object();
     o["id"] = Value(g_curid);
